@@ -51,6 +51,14 @@ class CompD(Component):
     pass
 
 
+class CompF(Component):
+    """A component whose instances are FALSY (like an empty inventory that defines __len__): legal, and ECAgent's own Agent
+    is falsy too when it has no components, so truthiness tests where identity/None tests are meant must show."""
+
+    def __len__(self):
+        return 0
+
+
 COMPS = [CompA, CompB, CompC]
 
 
